@@ -31,7 +31,9 @@ func cfgString(c kioshun.Config) string { return fmt.Sprintf("%+v", c) }
 
 // allocatable: New may be called without huge allocations.
 func cfgAllocatable(c kioshun.Config) bool {
-	return c.MaxSize <= 200000 && c.ShardCount <= 2048 && c.WriteBufferSize <= 1<<14 && c.WriteBatchSize <= 1<<14
+	// a bounded cache clamps its shard count by its budgets (at most 256 shards), whatever ShardCount asks for
+	bounded := (c.MaxSize > 0 || c.MaxCost > 0) && c.ShardCount > 0
+	return c.MaxSize <= 200000 && (c.ShardCount <= 2048 || bounded) && c.WriteBufferSize <= 1<<14 && c.WriteBatchSize <= 1<<14
 }
 
 func randConfig(r *rand.Rand) kioshun.Config {
@@ -191,6 +193,9 @@ func streamCfg(o opts) {
 	w.T(sidCfg, &toks{})
 	directed := []kioshun.Config{
 		{}, kioshun.DefaultConfig(),
+		// huge explicit shard counts on BOUNDED caches: clamped by the budgets long before any rounding could wrap
+		{MaxSize: 100, ShardCount: math.MaxInt}, {MaxSize: 10, MaxCost: 50, ShardCount: 1<<62 + 1}, {MaxCost: 9, ShardCount: math.MaxInt - 1, EvictionPolicy: kioshun.LFU},
+		{MaxSize: 300, ShardCount: 1 << 62}, {MaxSize: 1000, ShardCount: 1<<61 + 7, EvictionPolicy: kioshun.FIFO},
 		{MaxSize: 1003, MaxCost: 77, ShardCount: 12, DefaultTTL: -1, CostAdmission: 1, WriteBufferSize: 3},
 		{MaxSize: 100, MaxCost: 7}, {MaxSize: 7, MaxCost: 100}, {MaxSize: 100000, ShardCount: 1000},
 		{MaxSize: 5000, ShardCount: 300}, {ShardCount: 1024, EvictionPolicy: kioshun.LRU},
@@ -226,6 +231,39 @@ func streamCfg(o opts) {
 	}
 	for i := 0; i < o.n; i++ {
 		run(randConfig(r))
+	}
+	// a zero ratio means its documented default and leaves the other ratio alone: the cache built with one ratio left
+	// at zero has the segments of the cache built with that ratio's default written out
+	{
+		def := kioshun.DefaultConfig()
+		for i := 0; i < 40; i++ {
+			base := kioshun.Config{MaxSize: int64(20 + r.Intn(2000)), ShardCount: pick(r, []int{1, 2, 4}), EvictionPolicy: pick(r, []kioshun.EvictionPolicy{kioshun.SieveTinyLFU, kioshun.DefaultEvictionPolicy})}
+			a, b := base, base
+			if i%2 == 0 {
+				a.ProbationRatio, b.ProbationRatio = uint8(1+r.Intn(100)), 0
+				b.ProbationRatio = a.ProbationRatio
+				a.GhostRatio, b.GhostRatio = 0, def.GhostRatio
+			} else {
+				a.GhostRatio = uint8(1 + r.Intn(100))
+				b.GhostRatio = a.GhostRatio
+				a.ProbationRatio, b.ProbationRatio = 0, def.ProbationRatio
+			}
+			ca, ea := kioshun.New[int, int](a)
+			cb, eb := kioshun.New[int, int](b)
+			if ea != nil || eb != nil || def.GhostRatio == 0 || def.ProbationRatio == 0 {
+				continue
+			}
+			for sh := 0; sh < ca.VerifShards() && sh < cb.VerifShards(); sh++ {
+				ia, ib := ca.VerifShardInfo(sh), cb.VerifShardInfo(sh)
+				if ia.ProbationCap != ib.ProbationCap || ia.MainCap != ib.MainCap || ia.GhostCap != ib.GhostCap {
+					m.violate("C16", fmt.Sprintf("%s builds segments (probation %d, main %d, ghost %d) on shard %d, but with the zero ratio replaced by its documented default (%s) they are (%d, %d, %d): a zero-valued optional field behaves as its default", cfgString(a), ia.ProbationCap, ia.MainCap, ia.GhostCap, sh, cfgString(b), ib.ProbationCap, ib.MainCap, ib.GhostCap), cfgString(a))
+					break
+				}
+			}
+			ca.Close()
+			cb.Close()
+			m.count("ratio_default_pairs")
+		}
 	}
 	// single-fault configurations: an otherwise valid configuration (every policy) with exactly one field out of range
 	for i := 0; i < o.n/2+20; i++ {
